@@ -3,6 +3,7 @@ package checks
 import (
 	"encoding/json"
 	"fmt"
+	"strconv"
 	"sync/atomic"
 
 	"github.com/alttpo/snes/mapping/exhirom"
@@ -44,11 +45,103 @@ type mapCase struct {
 	HasPrev    bool   `json:"has_prev,omitempty"`
 	PrevAddr   uint32 `json:"prev_addr,omitempty"`
 	PrevMapper string `json:"prev_mapper,omitempty"`
+	// Cold: Addr was met in the scrambled-order sweep that comes first in the process; the replay first
+	// translates the addresses that sweep touched first in Addr's 64 KiB / 32 KiB / 8 KiB / 256-byte block
+	Cold bool `json:"cold,omitempty"`
+	// Want: with HasPrev, the answer for Addr in a plain ascending sweep ($FFFFFFFF: error)
+	Want uint32 `json:"want,omitempty"`
+}
+
+// The first sweep of a process enumerates addresses as i ^ mapScramble for ascending i: every aligned block
+// of every size is entered somewhere in its middle, not at its first byte (tables filled lazily from the
+// first address seen in a block must not depend on which one that is).
+const mapScramble = 0x5A5A5A
+
+func mapColdTouches(a uint32) []uint32 {
+	i := a ^ mapScramble
+	var out []uint32
+	for _, g := range []uint32{0x10000, 0x8000, 0x2000, 0x100} {
+		t := (i &^ (g - 1)) ^ mapScramble
+		if t != a && (len(out) == 0 || out[len(out)-1] != t) {
+			out = append(out, t)
+		}
+	}
+	return out
+}
+
+func mapColdSweep(r *report.Run, check func(m *mapper, dir string, a uint32) []mapFinding) (n int64) {
+	for _, dir := range []string{"pak", "bus"} {
+		for mi := range mappers {
+			m := &mappers[mi]
+			par.For(256, func(_, chunk int) {
+				base := uint32(chunk) << 16
+				for o := uint32(0); o < 0x10000; o++ {
+					a := (base | o) ^ mapScramble
+					for _, f := range check(m, dir, a) {
+						r.Violation(f.sig+":first-touch-order", f.what+fmt.Sprintf(" (first sweep of the process, addresses in the order i^$%06x; the replay first translates %06x)", mapScramble, mapColdTouches(a)), mapCase{Mapper: m.Name, Dir: dir, Addr: a, Cold: true})
+					}
+				}
+			})
+			n += 1 << 24
+		}
+	}
+	return
 }
 
 type mapFinding struct{ sig, what string }
 
-// mapHistoryProbe re-executes a history probe case: alone, then after the recorded preceding call.
+// mapNeighbourProbe: the answer for an address must not depend on which address was translated just
+// before (a "last translation" cache keyed on part of the address would). Per mapper and direction the
+// answers of a plain ascending sweep are tabulated; then for every address a and every bit 8..23 the
+// neighbour a^bit is translated right after a and must give its tabulated answer.
+const mapErr = 0xFFFFFFFF
+
+func mapNeighbourProbe(r *report.Run) (hist int64) {
+	table := make([]uint32, 1<<24)
+	for mi := range mappers {
+		m := &mappers[mi]
+		for _, dir := range []string{"bus", "pak"} {
+			f := m.BusToPak
+			if dir == "pak" {
+				f = m.PakToBus
+			}
+			par.For(256, func(_, chunk int) {
+				base := uint32(chunk) << 16
+				for o := uint32(0); o < 0x10000; o++ {
+					v, err, p := callMap(f, base|o)
+					if p || err != nil {
+						v = mapErr
+					}
+					table[base|o] = v
+				}
+			})
+			par.For(256, func(_, chunk int) {
+				base := uint32(chunk) << 16
+				var n int64
+				for o := uint32(0); o < 0x10000; o++ {
+					a := base | o
+					for k := uint(8); k < 24; k++ {
+						nb := a ^ (1 << k)
+						callMap(f, a)
+						r1, e1, p1 := callMap(f, nb)
+						n += 2
+						if p1 || e1 != nil {
+							r1 = mapErr
+						}
+						if r1 != table[nb] {
+							r.Violation("unexplained:depends-on-previous-call:"+m.Name, fmt.Sprintf("%s %s->: in an ascending sweep $%06x translates to $%06x, but right after translating $%06x to $%06x ($%08x stands for an error or panic)", m.Name, dir, nb, table[nb], a, r1, uint32(mapErr)), mapCase{Mapper: m.Name, Dir: dir, Addr: nb, HasPrev: true, PrevAddr: a, Want: table[nb]})
+							break
+						}
+					}
+				}
+				atomic.AddInt64(&hist, n)
+			})
+		}
+	}
+	return
+}
+
+// mapHistoryProbe re-executes a history probe case: the recorded preceding call, then the call under test.
 func mapHistoryProbe(c mapCase) (string, error) {
 	m := mapperByName(c.Mapper)
 	if m == nil {
@@ -61,19 +154,25 @@ func mapHistoryProbe(c mapCase) (string, error) {
 		return mm.PakToBus
 	}
 	f := pick(m)
+	if c.PrevMapper == "" {
+		callMap(f, c.PrevAddr)
+		r1, e1, p1 := callMap(f, c.Addr)
+		if p1 || e1 != nil {
+			r1 = mapErr
+		}
+		if r1 != c.Want {
+			return fmt.Sprintf("%s %s->: right after translating $%06x, $%06x translates to $%06x; in an ascending sweep to $%06x ($%08x stands for an error or panic)", c.Mapper, c.Dir, c.PrevAddr, c.Addr, r1, c.Want, uint32(mapErr)), fmt.Errorf("unexplained:depends-on-previous-call")
+		}
+		return "the translation does not depend on the preceding call", nil
+	}
 	r0, e0, _ := callMap(f, c.Addr)
 	r0, e0, _ = callMap(f, c.Addr)
-	prev := fmt.Sprintf("translating $%06x", c.PrevAddr)
-	if c.PrevMapper != "" {
-		pm := mapperByName(c.PrevMapper)
-		if pm == nil {
-			return "", fmt.Errorf("unknown mapper %q", c.PrevMapper)
-		}
-		callMap(pick(pm), c.Addr)
-		prev = c.PrevMapper + " translating the same address"
-	} else {
-		callMap(f, c.PrevAddr)
+	pm := mapperByName(c.PrevMapper)
+	if pm == nil {
+		return "", fmt.Errorf("unknown mapper %q", c.PrevMapper)
 	}
+	callMap(pick(pm), c.Addr)
+	prev := c.PrevMapper + " translating the same address"
 	r1, e1, p1 := callMap(f, c.Addr)
 	if p1 || r1 != r0 || (e1 == nil) != (e0 == nil) {
 		return fmt.Sprintf("%s %s->: $%06x gives ($%06x, %v), right after %s ($%06x, %v)", c.Mapper, c.Dir, c.Addr, r0, e0, prev, r1, e1), fmt.Errorf("unexplained:depends-on-previous-call")
@@ -108,6 +207,15 @@ func replayMapCase(f func(m *mapper, dir string, a uint32) []mapFinding) func(js
 		m := mapperByName(c.Mapper)
 		if m == nil {
 			return "", fmt.Errorf("unknown mapper %q", c.Mapper)
+		}
+		if c.Cold {
+			for _, t := range mapColdTouches(c.Addr) {
+				if c.Dir == "bus" {
+					callMap(m.BusToPak, t)
+				} else {
+					callMap(m.PakToBus, t)
+				}
+			}
 		}
 		fs := f(m, c.Dir, c.Addr)
 		if len(fs) == 0 {
@@ -180,6 +288,13 @@ func c04LoromF10(p uint32) uint32 { return (0x70+(p-0xE00000)>>15)<<16 + p&0x7FF
 
 func runC04(r *report.Run) {
 	var evals, mapped int64
+	if strconv.IntSize == 64 {
+		evals += mapColdSweep(r, c04CheckAddr)
+		r.Set("first_sweep_order", "scrambled (i ^ $5A5A5A), then ascending")
+	} else {
+		defer func() { mapColdSweep(r, c04CheckAddr) }()
+		r.Set("first_sweep_order", "ascending, then scrambled (i ^ $5A5A5A)")
+	}
 	for mi := range mappers {
 		m := &mappers[mi]
 		var perMapped int64
@@ -223,42 +338,12 @@ func runC04(r *report.Run) {
 		})
 		r.Set("mapped_addresses_"+m.Name, perMapped)
 	}
-	// the translations are functions of their argument: the answer for a must not depend on which
-	// address was translated just before (a "last translation" cache keyed on part of the address would)
-	var hist int64
-	for mi := range mappers {
-		m := &mappers[mi]
-		par.For(512, func(_, chunk int) {
-			dir, f := "bus", m.BusToPak
-			if chunk >= 256 {
-				dir, f = "pak", m.PakToBus
-			}
-			base := uint32(chunk&255) << 16
-			var n int64
-			for o := uint32(0); o < 0x10000; o++ {
-				a := base | o
-				r0, e0, p0 := callMap(f, a)
-				if p0 {
-					continue
-				}
-				for k := uint(8); k < 24; k++ {
-					callMap(f, a^(1<<k))
-					r1, e1, p1 := callMap(f, a)
-					n += 2
-					if p1 || r1 != r0 || (e1 == nil) != (e0 == nil) {
-						r.Violation("unexplained:depends-on-previous-call:"+m.Name, fmt.Sprintf("%s %s->: translating $%06x gives ($%06x, %v), but right after translating $%06x it gives ($%06x, %v)", m.Name, dir, a, r0, e0, a^(1<<k), r1, e1), mapCase{Mapper: m.Name, Dir: dir, Addr: a, HasPrev: true, PrevAddr: a ^ (1 << k)})
-						break
-					}
-				}
-			}
-			atomic.AddInt64(&hist, n)
-		})
-	}
+	hist := mapNeighbourProbe(r)
 	evals += hist
 	r.Set("history_probe_calls", hist)
 	r.Set("evaluations", evals)
 	r.Set("distinct_nontrivial", mapped)
-	r.Set("rule", "all 2^24 bus addresses (clause i) and all 2^24 FX Pak Pro addresses (clause ii) for each of the 4 mappers; a case is non-trivial when the address is translated (not the unmapped-error path), and then both directions are really composed on the implementation; history probe: for every address and every bit 8..23, the translation of a right after the translation of a with that bit flipped must equal the translation of a")
+	r.Set("rule", "all 2^24 bus addresses (clause i) and all 2^24 FX Pak Pro addresses (clause ii) for each of the 4 mappers; a case is non-trivial when the address is translated (not the unmapped-error path), and then both directions are really composed on the implementation; first-touch order: the first sweep of the process enumerates the addresses in scrambled order (native build) or ascending order (386 build), the other order follows; history probe: for every address and every bit 8..23, the translation of a right after the translation of a with that bit flipped must equal the translation of a")
 	r.Set("exhaustive", true)
 	r.Sample(mapCase{Mapper: "lorom", Dir: "bus", Addr: 0xFE0000})
 	r.Sample(mapCase{Mapper: "lorom", Dir: "pak", Addr: 0xE70000})
@@ -386,6 +471,13 @@ func runC05(r *report.Run) {
 		}
 	}
 	var evals, mapped int64
+	if strconv.IntSize == 64 {
+		evals += mapColdSweep(r, c05CheckAddr)
+		r.Set("first_sweep_order", "scrambled (i ^ $5A5A5A), then ascending")
+	} else {
+		defer func() { mapColdSweep(r, c05CheckAddr) }()
+		r.Set("first_sweep_order", "ascending, then scrambled (i ^ $5A5A5A)")
+	}
 	for mi := range mappers {
 		m := &mappers[mi]
 		var regionsHit [16]int64
@@ -457,11 +549,13 @@ func runC05(r *report.Run) {
 		}
 		atomic.AddInt64(&cross, n)
 	})
-	evals += cross
+	hist := mapNeighbourProbe(r)
+	evals += cross + hist
+	r.Set("history_probe_calls", hist)
 	r.Set("cross_mapper_probe_calls", cross)
 	r.Set("evaluations", evals)
 	r.Set("distinct_nontrivial", mapped)
-	r.Set("rule", "cross-mapper probe: every address is translated by each mapper again right after each other mapper was asked about it (same answer required); all 2^24 bus addresses and all 2^24 pak addresses x 4 mappers, five facets each (error shape/class windows, pak reject window, console-owned map, 8 KiB page uniformity and order, region table); non-trivial = address inside a mapped region of the reference table (bus) or outside the reject window (pak)")
+	r.Set("rule", "first-touch order: the first sweep of the process enumerates the addresses in scrambled order (native build) or ascending order (386 build), the other order follows; history probe: every address again right after a neighbour differing in one of bits 8..23; cross-mapper probe: every address is translated by each mapper again right after each other mapper was asked about it (same answer required); all 2^24 bus addresses and all 2^24 pak addresses x 4 mappers, five facets each (error shape/class windows, pak reject window, console-owned map, 8 KiB page uniformity and order, region table); non-trivial = address inside a mapped region of the reference table (bus) or outside the reject window (pak)")
 	r.Set("exhaustive", true)
 	r.Set("facets", []string{"a:error-shape+class-window", "b:pak-reject-window", "c:console-owned-map", "d:8KiB-page-uniform+ordered", "e:region-table"})
 	r.Sample(mapCase{Mapper: "lorom", Dir: "bus", Addr: 0x7E1234})
